@@ -262,7 +262,7 @@ Msgs ==
   \cup UNION { { [t |-> "VCSettle", upd |-> u, params |-> p, st |-> s, sigs |-> g] :
                     u \in { x \in UpdsS : Len(x.st.alloc.locked) = 0 /\ NPof(x.st.alloc) = 2 },
                     s \in { x \in StatesS : NPof(x.alloc) = Len(p.parts) }, g \in SigSome(Len(p.parts)) } : p \in ParamsS }
-  \cup { [t |-> "Sync", phase |-> ph, tx |-> tx] : ph \in {0, 5}, tx \in Txs }
+  \cup { [t |-> "Sync", phase |-> ph, tx |-> tx] : ph \in {0, 5, 11}, tx \in Txs }   \* first phase, Final, last phase (Withdrawn)
 
 Env(m) == [from |-> NM("N1"), to |-> NM("N2"), msg |-> m]
 Envs == { Env(m) : m \in Msgs }
